@@ -37,7 +37,7 @@
 (*    identifies the batch that wrote it last;                              *)
 (*  - the failing final assertion aborts the process (a second panic is     *)
 (*    raised while unwinding: the held-back `WriteBatch`es are dropped      *)
-(*    while still `active`), modelled by `crashed`.                         *)
+(*    while still `active`), modelled by `crashed` (switch AbortOnGap).     *)
 (***************************************************************************)
 EXTENDS Integers, Sequences, FiniteSets, TLC
 
@@ -51,6 +51,9 @@ CONSTANTS
     Gated,          \* TRUE: physical commits wait for the environment gate
     AllowGap,       \* TRUE: Drop may start while created batches are unsubmitted
     AllowPass,      \* TRUE: open batches may change hands
+    AbortOnGap,     \* TRUE = the code as it is: batches still held back at shutdown fail the
+                    \* final assertion and abort the process (known finding KF_WB_GAP_ABORT);
+                    \* FALSE = proposed repair: they are given up and Drop returns
     DefectTakeAny,  \* defect switch: committer takes the heap top regardless of `expected`
     DefectNoJoin    \* defect switch: Drop does not join committer / notifier
 
@@ -273,7 +276,7 @@ CPostDone ==
 (* assert!(holdback_queues.is_empty()); drop(after_commit_sender) *)
 CAssert ==
     /\ ~crashed /\ cpc = "assert"
-    /\ IF heap = {}
+    /\ IF heap = {} \/ ~AbortOnGap
        THEN cpc' = "exit" /\ UNCHANGED crashed
        ELSE cpc' = "dead" /\ crashed' = TRUE
     /\ UNCHANGED <<subVars, serVars, heap, expected, current, limit, cfinal, toCommit, db, log,
@@ -367,6 +370,20 @@ FairSpec ==
 
 Symm == Permutations(Threads) \cup Permutations(Sers)
 
+(* the same without the promise that the write manager is ever dropped:    *)
+(* EventuallyDurable FAILS here (expected, see WriteBehindLinger.cfg): a    *)
+(* batch taken into a physical batch that the store still wants to grow     *)
+(* (`should_write_more()`) stays uncommitted until the next batch arrives   *)
+(* or Drop runs - the guarantee is "by shutdown", not "eventually"          *)
+FairSpecNoShutdown ==
+    /\ Spec
+    /\ WF_vars(SubmitAny)
+    /\ WF_vars(GateAllow)
+    /\ \A s \in Sers : WF_vars(SerTake(s)) /\ WF_vars(SerSend(s)) /\ WF_vars(SerExit(s))
+    /\ WF_vars(CommitStep)
+    /\ WF_vars(AfterStep)
+    /\ WF_vars(DropStep)
+
 (******************************* invariants *******************************)
 TypeOK ==
     /\ nextEpoch \in 0..MaxBatch
@@ -410,8 +427,15 @@ DbIsFoldOfPrefix == db = FoldUpTo(Len(Committed))
 FinalContent ==
     (Open = {} /\ Len(Committed) = nextEpoch) => db = FoldUpTo(nextEpoch)
 
-(* Drop returns only after every submitted batch is durable                 *)
-DropDrains == dpc = "returned" => Submitted \subseteq Range(Committed)
+(* Drop returns only after every submitted batch is durable - provided no   *)
+(* batch created before it was left unsubmitted (the documented stall)      *)
+DropDrains ==
+    dpc = "returned" =>
+        \A e \in Submitted : (\E g \in Open : g < e) \/ e \in Range(Committed)
+
+(* as the code is, Drop never returns at all past a gap (it aborts)         *)
+DropDrainsStrict ==
+    AbortOnGap => (dpc = "returned" => Submitted \subseteq Range(Committed))
 
 (* caches are told "flushed" only for durable batches                       *)
 NotifyAfterDurable ==
@@ -432,7 +456,7 @@ StallOnlyBehindGap ==
 HeldBackBehindGap ==
     \A e \in Range(Committed) : \A g \in Open : g > e
 
-NoCrashWithoutGap == (~AllowGap) => ~crashed
+NoCrashWithoutGap == (~AllowGap \/ ~AbortOnGap) => ~crashed
 
 (******************************** liveness ********************************)
 EventuallyDurable ==
